@@ -31,9 +31,12 @@ STATIC = {
 }
 DYNAMIC = ["now()", "today()", "uuid()", "1 + 1", "7 * 4", "3 mod 3", "9 div 3", "concat('a', 'b')", "if(1 = 1, 'a', 'b')",
            "string-length('x')", "once(random())", "/data/x | /data/y", "instance('l1')/root/item[name='c1']/label",
-           "today() - 7", "now() - 0.5", "decimal-date-time(today()) - 1", "if(true(), today() - 1, today())"]
-DYN_REF = ["${%s}", "${%s} + 1", "concat(${%s}, 'z')", "if(${%s} = '', 'a', ${%s})", "${%s} - 7", "${%s} - ${%s}"]
-BOUNDARY = ["a-b", "1-1", "f-4", "./f-4", "(x)", "../t0", "7 - 4", "x[1]x", "{y}", "a - b"]
+           "today() - 7", "now() - 0.5", "decimal-date-time(today()) - 1", "if(true(), today() - 1, today())",
+           # a hyphen in front of what makes the cell an expression
+           "1 - today()", "0 - 1 + now()", "(0 - 7) + today()", "-1 * 3", "2020-01-01 + 1", "../t0[1]", "/data/x[1]/y"]
+DYN_REF = ["${%s}", "${%s} + 1", "concat(${%s}, 'z')", "if(${%s} = '', 'a', ${%s})", "${%s} - 7", "${%s} - ${%s}", "(0 - 7) + ${%s}", "7 - ${%s}",
+           "../${%s}" if False else "0 - ${%s}"]
+BOUNDARY = ["a-b", "1-1", "f-4", "./f-4", "(x)", "../t0", "7 - 4", "{y}", "a - b"]
 TYPES = ["text", "integer", "decimal", "date", "time", "dateTime", "geopoint", "geotrace", "note", "select_one", "select_multiple", "image",
          "barcode", "range", "hidden", "acknowledge", "calculate"]
 
